@@ -292,7 +292,7 @@ fn analyze_change<'a>(
                                         return;
                                     }
                                     if !ignore_targets.contains(target2.as_str()) {
-                                        targets.insert(target.to_string());
+                                        targets.insert(target2.clone());
                                         update_change_targets(
                                             &mut change_targets,
                                             &target2,
